@@ -23,13 +23,24 @@ RECV = "cmd/cmaf-ingest-receiver/app"
 # files = harness files (under harness/<hdir>/) that make up the monitor,
 # race = build with -race, resume = restart the child after a crash (crash = violation),
 # tmo = outer watchdog seconds (quick, thorough)
+def REASK(kind):
+    """extra unit: the race-detector build of the request families that belong to a sequential monitor (harness/livesim/reask_test.go)."""
+    return dict(pkg=LIVESIM, hdir="livesim", files=["common", "reask"], test="TestVerifReaskRace", race=True, env=dict(VERIF_REASK_KIND=kind))
+
+
 PROPS = {
-    "C01": dict(pkg=LIVESIM, hdir="livesim", files=["common", "c01"], race=False, tmo=(600, 3600)),
-    "C02": dict(pkg=LIVESIM, hdir="livesim", files=["common", "c02"], race=False, tmo=(600, 3600)),
-    "C03": dict(pkg=LIVESIM, hdir="livesim", files=["common", "c03"], race=False, tmo=(600, 3600)),
-    "C04": dict(pkg=LIVESIM, hdir="livesim", files=["common", "c04"], race=False, tmo=(600, 3600)),
-    "C05": dict(pkg=LIVESIM, hdir="livesim", files=["common", "c05"], race=False, tmo=(600, 3600)),
-    "C06": dict(pkg=LIVESIM, hdir="livesim", files=["common", "c06"], race=False, tmo=(600, 3600)),
+    "C01": dict(pkg=LIVESIM, hdir="livesim", files=["common", "c01"], race=False, tmo=(600, 3600),
+                extra=[REASK("segments")]),
+    "C02": dict(pkg=LIVESIM, hdir="livesim", files=["common", "c02"], race=False, tmo=(600, 3600),
+                extra=[REASK("mpd")]),
+    "C03": dict(pkg=LIVESIM, hdir="livesim", files=["common", "c03"], race=False, tmo=(600, 3600),
+                extra=[REASK("audio")]),
+    "C04": dict(pkg=LIVESIM, hdir="livesim", files=["common", "c04"], race=False, tmo=(600, 3600),
+                extra=[REASK("availability")]),
+    "C05": dict(pkg=LIVESIM, hdir="livesim", files=["common", "c05"], race=False, tmo=(600, 3600),
+                extra=[REASK("mpd")]),
+    "C06": dict(pkg=LIVESIM, hdir="livesim", files=["common", "c06"], race=False, tmo=(600, 3600),
+                extra=[REASK("mpd")]),
     # C07 extra units: the same collision-prone request table answered by two separate processes in opposite orders
     "C07": dict(pkg=LIVESIM, hdir="livesim", files=["common", "c07"], race=True, resume=True, tmo=(900, 3600),
                 extra=[dict(pkg=LIVESIM, hdir="livesim", files=["common", "c07"], test="TestVerifC07X", env=dict(VERIF_C07X_ORDER="fwd")),
@@ -37,13 +48,18 @@ PROPS = {
     "C08": dict(pkg=LIVESIM, hdir="livesim", files=["common", "c08"], race=False, resume=True, tmo=(900, 3600),
                 extra=[dict(pkg=RECV, hdir="receiver", files=["common", "c08r"], test="TestVerifC08R"),
                        dict(pkg="pkg/chunkparser", hdir="chunkparser", files=["common", "c08p"], test="TestVerifC08P")]),
-    "C09": dict(pkg=LIVESIM, hdir="livesim", files=["common", "c09"], race=False, tmo=(600, 3600)),
-    "C10": dict(pkg=LIVESIM, hdir="livesim", files=["common", "c10"], race=False, tmo=(600, 3600)),
+    "C09": dict(pkg=LIVESIM, hdir="livesim", files=["common", "c09"], race=False, tmo=(600, 3600),
+                extra=[REASK("chunked")]),
+    "C10": dict(pkg=LIVESIM, hdir="livesim", files=["common", "c10"], race=False, tmo=(600, 3600),
+                extra=[REASK("drm")]),
     "C11": dict(pkg=LIVESIM, hdir="livesim", files=["common", "c11"], race=False, tmo=(600, 3600),
-                extra=[dict(pkg="pkg/patch", hdir="patch", files=["common", "c11p"], test="TestVerifC11P")]),
-    "C12": dict(pkg=LIVESIM, hdir="livesim", files=["common", "c12"], race=False, tmo=(600, 3600)),
-    "C13": dict(pkg=LIVESIM, hdir="livesim", files=["common", "c13"], race=False, tmo=(600, 3600)),
-    "C14": dict(pkg=LIVESIM, hdir="livesim", files=["common", "c14"], race=False, tmo=(600, 3600)),
+                extra=[dict(pkg="pkg/patch", hdir="patch", files=["common", "c11p"], test="TestVerifC11P"), REASK("patch")]),
+    "C12": dict(pkg=LIVESIM, hdir="livesim", files=["common", "c12"], race=False, tmo=(600, 3600),
+                extra=[REASK("timesubs")]),
+    "C13": dict(pkg=LIVESIM, hdir="livesim", files=["common", "c13"], race=False, tmo=(600, 3600),
+                extra=[REASK("scte35")]),
+    "C14": dict(pkg=LIVESIM, hdir="livesim", files=["common", "c14"], race=False, tmo=(600, 3600),
+                extra=[REASK("statuscode")]),
     "C15": dict(pkg=LIVESIM, hdir="livesim", files=["common", "c15"], race=False, resume=True, tmo=(900, 3600)),
     "C16": dict(pkg=LIVESIM, hdir="livesim", files=["common", "c16"], race=True, resume=True, tmo=(900, 3600)),
     "C17": dict(pkg=RECV, hdir="receiver", files=["common", "c17"], race=False, resume=True, tmo=(900, 3600)),
@@ -358,11 +374,12 @@ def setup():
                 present = all(os.path.exists(os.path.join(VERIF, "harness", u["hdir"], f + "_test.go")) for f in u["files"])
                 if not present:
                     continue
-                key = (u["pkg"], tuple(u["files"]), P.get("race", False))
+                urace = u.get("race", P.get("race", False))
+                key = (u["pkg"], tuple(u["files"]), urace)
                 if key in seen:
                     continue
                 seen.add(key)
-                b = build(w, u, P.get("race", False), "%s_%d" % (pid, i))
+                b = build(w, u, urace, "%s_%d" % (pid, i))
                 ok = ok and b is not None
                 if b:
                     os.remove(b)
@@ -382,14 +399,14 @@ def check(pid, tier, seed, replay):
         units = units_of(pid)
         bins = []
         for i, u in enumerate(units):
-            b = build(w, u, P.get("race", False), "%s_%d" % (pid, i))
+            b = build(w, u, u.get("race", P.get("race", False)), "%s_%d" % (pid, i))
             if b is None:
                 return finish(pid, tier, seed, acc, t0, w, broken="build failed")
             bins.append(b)
         tmo = P["tmo"][0 if tier == "quick" else 1]
         for i, (u, b) in enumerate(zip(units, bins)):
             ok = run_unit(w, b, u["pkg"], u["test"], pid, tier, seed, tmo, P.get("resume", False), acc, replay, tag="u%d" % i, uenv=u.get("env"))
-        races = parse_races(w) if P.get("race") else []
+        races = parse_races(w) if any(u.get("race", P.get("race", False)) for u in units) else []
         for r in races:
             a = acc["violations"].setdefault(r["sig"], dict(sig=r["sig"], count=0, examples=[]))
             a["count"] += r["count"]
